@@ -513,6 +513,7 @@ class ContractTable:
         self.globals_hook = None
         self.with_hook = None
         self.attr_hook = None
+        self.ilist_lemma_hook = None
         self.list_index_hook = None
         self.stmt_hooks = {}      # qual -> fn(ex, stmt, st, fi): explicit
         #                           assumption injection (listed in evidence)
